@@ -57,6 +57,17 @@ CHECKS = {
    design_ref='DESIGN.md par.5 C12',
    note='model filesystem; 3 names per directory; codecs deterministic given equal header '
         'parameters; F1 region of C03 excluded by construction'),
+ 'C13': dict(
+   text='Verdicts of the same model tree with plain and with compressed-named sub-Manifests are '
+        'equal for every format pair; update+save with a symbolic watermark, symbolic '
+        'uncompressed sizes (incl. equality), target format and force leaves each rewritten '
+        'sub-Manifest compressed iff size >= watermark, keeps the format of already compressed '
+        'ones, never renames the top-level Manifest, leaves one file per Manifest referenced '
+        'correctly by its parent, and the tree verifies; policy and suffix functions decided '
+        'directly on symbolic ints/strings.',
+   design_ref='DESIGN.md par.5 C13',
+   note='compression is a property of the name in the model (codecs are C code); two '
+        'sub-Manifests; sizes are symbolic values reported by the text layer'),
 }
 
 NOT_APPLICABLE = {
